@@ -23,6 +23,16 @@ class EngineC(tops.Component):
         return None
 
 
+class EngineZone(EngineC):
+    """client lives against a link-local IPv6 peer (addresses with a zone): the runtime half of C17"""
+    suffix = ""
+    ncases = (6, 60)
+
+    def gen_args(self, tier, seed):
+        n = self.ncases[0] if tier == "quick" else self.ncases[1]
+        return [["-seed", str(seed), "-cases", str(n), "-only", "zone"]]
+
+
 class EngineHandover(EngineC):
     """server lives built against instrumented copies of connection_unix.go / eventloop_unix.go that log every
     hand-over, registration, close and loop exit in one global order; the Lean hand-over model replays the
